@@ -75,6 +75,22 @@ def s1(ck, an, concrete):
             raise AnalysisError(f"C19-S1: frozen alias table and pandas {ver} disagree on {lit!r} (table says {'invalid' if table_bad else 'valid'}); the table needs review")
         ck.check(not table_bad, "CONST", "S1.freq-alias-valid", c.name, f"{owner.module.relpath}:{val.lineno}", f"{c.name}.freq = {lit!r} (from {owner.name}) is accepted by pandas {ver}",
                  f"{c.name}.freq = {lit!r} (from {owner.name}) is an offset alias removed in pandas >= 3: FutureChain({c.name}, ...) raises 'Invalid frequency'", construct=f"{owner.name}.freq = {lit!r}")
+    # the listing cycle each expiry / last-trading-date rule was written for (reviewed table). The Treasury cut-off
+    # (expiry - 30 days).replace(day=24) maps two consecutive MONTHLY expiries to the same date (31-day months), so it orders a chain strictly
+    # only on a quarterly cycle: every class using it must list quarterly.
+    for c in concrete:
+        owner, val = an.prog.lookup_class_attr(c, "freq")
+        lit = val.value if isinstance(val, ast.Constant) else None
+        want = LISTING_CYCLE.get(c.name)
+        uses_treasury_rule = any(b.name == "_Treasury" for b in an.prog.mro(c)) and an.prog.lookup_method(c, "_get_last_trading_date") is not None and an.prog.lookup_method(c, "_get_last_trading_date").cls.name == "_Treasury"
+        if want is not None:
+            ck.check(lit == want, "CONST", "S1.listing-cycle", c.name, f"{owner.module.relpath}:{val.lineno}" if val is not None else c.loc, f"{c.name} lists on the cycle its date rules were written for ({want})",
+                     f"{c.name}.freq = {lit!r} (from {owner.name if owner else '?'}); its expiry / last-trading-date rules were reviewed for {want!r}", construct=f"{c.name}.freq")
+        if uses_treasury_rule:
+            ck.check(isinstance(lit, str) and lit.upper().startswith(("Q", "BQ")), "CONST", "S2.treasury-cutoff-needs-quarterly-cycle", c.name, c.loc,
+                     f"{c.name} uses the Treasury cut-off rule on a quarterly cycle (last trading dates strictly increasing)",
+                     f"{c.name} uses the Treasury cut-off (expiry - 30d).replace(day=24) on the cycle {lit!r}: consecutive monthly contracts can share a last trading date, the chain is no longer strictly ordered",
+                     construct=f"{c.name}.freq")
     fi = an.fa("FutureChain.__init__")
     dr = [c for c in fi.calls_named("date_range")]
     ok = any(any(k.arg == "freq" and ast.unparse(k.value) == "future_cls.freq" for k in c.keywords) and [ast.unparse(a) for a in c.args] == ["start", "end"] for c in dr)
@@ -84,6 +100,9 @@ def s1(ck, an, concrete):
         attr = "exists_since" if nm == "start" else "exists_until"
         ck.check(any(ast.unparse(d.value) == f"{nm} or future_cls.{attr}" for d in defs), "ARGFLOW", f"S1.span-default-{nm}", fi.f.short, fi.f.loc, f"the span {nm} defaults to the class's {attr}", f"{nm} default is not future_cls.{attr}",
                  construct=f"{nm} = {nm} or future_cls.{attr}")
+
+
+LISTING_CYCLE = {"ES": "QE-DEC", "NK": "QE-DEC", "VX": "ME", "ZQ": "QE-DEC", "ZT": "QE-DEC", "ZF": "QE-DEC", "ZN": "QE-DEC", "ZB": "QE-DEC"}
 
 
 def _positive_offset(e):
